@@ -315,3 +315,25 @@ def warmup_ops(rng):
         ops.append({"op": "add_comp", "parent": [s2, a] if rng.random() < 0.5 else [a, s2], "comp": comp_entry(rng, "PMux", mx)})
         ops.append({"op": "add_comp", "parent": mx, "comp": comp_entry(rng, "RLoad", ml)})
     return ops
+
+
+def spec_from_live(sysobj):
+    """Reconstruct a SystemSpec from a live System (structure from the graph, parameters from the components)."""
+    g = sysobj._g
+    par = sysobj._get_parents()
+    order = list(__import__("rustworkx").topological_sort(g))
+    comps = []
+    for i in order:
+        obj = g[i]
+        name = obj._params["name"]
+        args = {k: copy.deepcopy(v) for k, v in obj._params.items() if k not in ("name", "type")}
+        kind = type(obj).__name__
+        if kind == "Source":
+            args.pop("rt", None)
+        p = par[i]
+        comps.append({
+            "name": name, "kind": kind, "args": args, "parents": [] if p == -1 else [g[j]._params["name"] for j in p],
+            "group": g.attrs["groups"].get(name, ""), "rail": g.attrs["rails"].get(name, ""),
+            "limits": copy.deepcopy(obj._limits), "phase": copy.deepcopy(g.attrs["phase_conf"].get(name)) or None,
+        })
+    return {"name": g.attrs["name"], "comps": comps, "phases": copy.deepcopy(g.attrs["phases"])}
